@@ -5,10 +5,10 @@ import StorageModel.Base.Bytes
   results, logs and the leaf dump of the database.  Used only by the drivers, never by a proof.
 
   case  := "E" nP reg* nC reg* txl ["I" nIxP ixreg* nIxC ixreg*] "T" ntx tx*
-  ixreg := nveto (stage id)*                  stage: b (ProcessBeforeUpdate) a (ProcessAfterUpdate) d (ProcessBeforeDelete)
+  ixreg := nveto (stage id)*                  stage: b (ProcessBeforeUpdate) a (ProcessAfterUpdate) d (ProcessBeforeDelete); B A D: the veto is a RecordNotFoundError
            custom boltz.Constraint registered with AddConstraint on the parent / child store
   reg   := "l" style ntypes type*            style: t f u i     type: c u d (sync) C U D (async)
-         | "c" typed nveto (kind id)*        typed: t u         kind: c u d
+         | "c" typed nveto (kind id)*        typed: t u (T U: vetoes with a RecordNotFoundError)   kind: c u d
   tx    := "tx" mode reuse nsteps step*      mode: u b          reuse: 0 1
   step  := "op" swallow fault op | "fail" tag | "ac" tag | "ap" tag fails | "nb" | "nB" | "ne" | "sys"
            (nb / nB: nested Db.Update / Db.Batch with the bound context; sys: switch to the system context)
@@ -105,9 +105,12 @@ def reg : P Reg := fun ts => do
     pure (.listener style types, ts)
   | "c" =>
     let (s, ts) ← tok ts
+    -- T / U: the same registrations, the veto being a *boltz.RecordNotFoundError (no difference for the model)
     let typed ← match s with
       | "t" => some true
       | "u" => some false
+      | "T" => some true
+      | "U" => some false
       | _ => none
     let (vs, ts) ← counted veto ts
     pure (.constraint typed vs, ts)
@@ -117,6 +120,10 @@ def stageOf : String → Option Stage
   | "b" => some .beforeUpdate
   | "a" => some .afterUpdate
   | "d" => some .beforeDelete
+  -- upper case: the veto is a *boltz.RecordNotFoundError (no difference for the model)
+  | "B" => some .beforeUpdate
+  | "A" => some .afterUpdate
+  | "D" => some .beforeDelete
   | _ => none
 
 def ixVeto : P (Stage × String) := fun ts => do
